@@ -18,46 +18,7 @@ func runC03(p *Prog, r *Report) {
 	lockBalance(p, r, "C03.7/E1", "protocol/req", "protocol/xreq")
 	q := NewQ(p, r)
 	R := "C03.1/reply-matching"
-	r.Describe(R, "req receiver: id = BigEndian.Uint32 of the moved header word (len(Body) >= 4 checked), comma-ok lookup under the lock, hit => store reply + delete id (unconditionally), miss => free")
-	rc := q.Fn(R, "protocol/req", "pipe", "receiver")
-	if rc.OK() {
-		mv := rc.Ev("store", "recv.p.RecvMsg().Header")
-		okMove := len(mv) == 1 && strings.HasSuffix(mv[0].Args[0], "recv.p.RecvMsg().Body[:4])") && mv.AllGuarded("len(recv.p.RecvMsg().Body) >= 4")
-		r.Check(okMove, R, "moves-one-word", mv.Pos(p), "Header = append(Header, Body[:4]...) under len(Body) >= 4", "the receiver does not move exactly the first 4 body bytes to the header under a length check: "+argsOf(mv))
-		bs := rc.Ev("store", "recv.p.RecvMsg().Body")
-		r.Check(len(bs) == 1 && strings.HasSuffix(bs[0].Args[0], ".Body[4:]"), R, "strips-one-word", bs.Pos(p), "Body = Body[4:]", "the id word is not stripped from the body (the application would see it)")
-		idc := rc.Ev("call", "binary.(bigEndian).Uint32")
-		okId := len(idc) == 1 && idc[0].Args[1] == "recv.p.RecvMsg().Header" && idc.DominatedBy(mv)
-		r.Check(okId, R, "id-from-moved-word", idc.Pos(p), "id = BigEndian.Uint32(Header) after the move", "the request id is not read (big-endian) from the moved header word")
-		const hit = "recv.s.ctxByID[binary.(bigEndian).Uint32(encoding/binary.BigEndian,recv.p.RecvMsg().Header)]#1"
-		st := rc.Ev("store", "*.repMsg")
-		r.Check(len(st) == 1 && st[0].Args[0] == "recv.p.RecvMsg()" && st.AllGuarded(hit) && st.AllHeld(reqMu), R, "reply-stored-on-hit", st.Pos(p), "repMsg = m only on the lookup hit, under the lock", "the reply is stored without a successful id lookup under the lock: "+guardsOf(st))
-		del := rc.Ev("delete", "delete").Arg(0, "recv.s.ctxByID")
-		okDel := len(del) == 1 && del.AllHeld(reqMu) && len(del[0].Guard) == 3 && hasAtom(del[0].Guard, hit)
-		r.Check(okDel, R, "id-forgotten-on-hit", del.Pos(p), "delete(ctxByID, id) on every hit", "on a matching reply the id is not removed from ctxByID unconditionally (extra conditions: "+guardsOf(del)+"): a late duplicate of that reply is delivered as the answer to the next request")
-		// same critical section for lookup and delete
-		var lk ssa.Instruction
-		EachInstr(rc.fn, func(in ssa.Instruction) {
-			if l, ok := in.(*ssa.Lookup); ok && l.CommaOk && strings.HasSuffix(Desc(l.X), ".ctxByID") {
-				lk = in
-			}
-		})
-		same := false
-		if lk != nil && len(del) == 1 {
-			for _, h1 := range p.E1().held[lk] {
-				for _, h2 := range p.E1().held[del[0].In] {
-					if h1.At == h2.At {
-						same = true
-					}
-				}
-			}
-		}
-		r.Check(same, R, "lookup-and-delete-atomic", del.Pos(p), "lookup and delete in one critical section", "the id lookup and its removal are not in one critical section")
-		fr := rc.Ev("call", "mangos.(*Message).Free").Arg(0, "recv.p.RecvMsg()").Guarded("!" + hit)
-		r.Check(len(fr) == 1, R, "miss-is-dropped", fr.Pos(p), "a reply with an unknown id is freed", "a reply that matches no pending request is not dropped")
-		bc := rc.Ev("call", "sync.(*Cond).Broadcast").Guarded(hit)
-		r.Check(len(bc) == 1, R, "wakes-receiver", bc.Pos(p), "the waiting Recv is woken", "the waiting Recv is not woken on a hit")
-	}
+	c03ReplyMatching(p, r, R)
 
 	R = "C03.2/id-table-writers"
 	r.Describe(R, "ctxByID is inserted only by socket.send under the context's current id, and deleted only by the receiver (on a hit) and by cancel")
@@ -170,5 +131,50 @@ func runC03(p *Prog, r *Report) {
 			}
 		}
 		r.Check(len(cc) == 1 && (cc.AllGuarded("recv.repMsg == nil") || cc.AllGuarded("φm == nil")), R, "superseded-is-ErrCanceled", cc.Pos(p), "a superseded Recv fails with ErrCanceled", "a Recv whose request was superseded does not fail with ErrCanceled")
+	}
+}
+
+// c03ReplyMatching: the REQ receiver's id matching (shared by C03.1 and C16.9).
+func c03ReplyMatching(p *Prog, r *Report, R string) {
+	q := NewQ(p, r)
+	r.Describe(R, "req receiver: id = BigEndian.Uint32 of the moved header word (len(Body) >= 4 checked), comma-ok lookup under the lock, hit => store reply + delete id (unconditionally), miss => free")
+	rc := q.Fn(R, "protocol/req", "pipe", "receiver")
+	if rc.OK() {
+		mv := rc.Ev("store", "recv.p.RecvMsg().Header")
+		okMove := len(mv) == 1 && strings.HasSuffix(mv[0].Args[0], "recv.p.RecvMsg().Body[:4])") && mv.AllGuarded("len(recv.p.RecvMsg().Body) >= 4")
+		r.Check(okMove, R, "moves-one-word", mv.Pos(p), "Header = append(Header, Body[:4]...) under len(Body) >= 4", "the receiver does not move exactly the first 4 body bytes to the header under a length check: "+argsOf(mv))
+		bs := rc.Ev("store", "recv.p.RecvMsg().Body")
+		r.Check(len(bs) == 1 && strings.HasSuffix(bs[0].Args[0], ".Body[4:]"), R, "strips-one-word", bs.Pos(p), "Body = Body[4:]", "the id word is not stripped from the body (the application would see it)")
+		idc := rc.Ev("call", "binary.(bigEndian).Uint32")
+		okId := len(idc) == 1 && idc[0].Args[1] == "recv.p.RecvMsg().Header" && idc.DominatedBy(mv)
+		r.Check(okId, R, "id-from-moved-word", idc.Pos(p), "id = BigEndian.Uint32(Header) after the move", "the request id is not read (big-endian) from the moved header word")
+		const hit = "recv.s.ctxByID[binary.(bigEndian).Uint32(encoding/binary.BigEndian,recv.p.RecvMsg().Header)]#1"
+		st := rc.Ev("store", "*.repMsg")
+		r.Check(len(st) == 1 && st[0].Args[0] == "recv.p.RecvMsg()" && st.AllGuarded(hit) && st.AllHeld(reqMu), R, "reply-stored-on-hit", st.Pos(p), "repMsg = m only on the lookup hit, under the lock", "the reply is stored without a successful id lookup under the lock: "+guardsOf(st))
+		del := rc.Ev("delete", "delete").Arg(0, "recv.s.ctxByID")
+		okDel := len(del) == 1 && del.AllHeld(reqMu) && len(del[0].Guard) == 3 && hasAtom(del[0].Guard, hit)
+		r.Check(okDel, R, "id-forgotten-on-hit", del.Pos(p), "delete(ctxByID, id) on every hit", "on a matching reply the id is not removed from ctxByID unconditionally (extra conditions: "+guardsOf(del)+"): a late duplicate of that reply is delivered as the answer to the next request")
+		// same critical section for lookup and delete
+		var lk ssa.Instruction
+		EachInstr(rc.fn, func(in ssa.Instruction) {
+			if l, ok := in.(*ssa.Lookup); ok && l.CommaOk && strings.HasSuffix(Desc(l.X), ".ctxByID") {
+				lk = in
+			}
+		})
+		same := false
+		if lk != nil && len(del) == 1 {
+			for _, h1 := range p.E1().held[lk] {
+				for _, h2 := range p.E1().held[del[0].In] {
+					if h1.At == h2.At {
+						same = true
+					}
+				}
+			}
+		}
+		r.Check(same, R, "lookup-and-delete-atomic", del.Pos(p), "lookup and delete in one critical section", "the id lookup and its removal are not in one critical section")
+		fr := rc.Ev("call", "mangos.(*Message).Free").Arg(0, "recv.p.RecvMsg()").Guarded("!" + hit)
+		r.Check(len(fr) == 1, R, "miss-is-dropped", fr.Pos(p), "a reply with an unknown id is freed", "a reply that matches no pending request is not dropped")
+		bc := rc.Ev("call", "sync.(*Cond).Broadcast").Guarded(hit)
+		r.Check(len(bc) == 1, R, "wakes-receiver", bc.Pos(p), "the waiting Recv is woken", "the waiting Recv is not woken on a hit")
 	}
 }
